@@ -2,7 +2,7 @@
 
 Case = a small mixed-dimensional grid (2-4 subdomains, 0-3 mortar grids, instantiated in random order),
 2-4 `create_variables` calls with mixed cells/faces/nodes multiplicities, and a history of
-set_equation / remove_equation / assemble calls on `EquationSystem`.
+set_equation / remove_equation / update_equation / assemble calls on `EquationSystem`.
 
 grid key    = position in case["grids"]; keys >= 100 denote grids that are NOT in the md-grid.
 equation k  = the name "e<k>";  variable name n = "v<n>".
@@ -15,6 +15,8 @@ request     = None | {"list": [item...]} | {"dict": [[key, grids]...]}   (wire f
 variables   = None | [ ["n",n] name | ["v",i] i-th atomic Variable created (i >= 1000: foreign) |
                        ["m",[i...]] a MixedDimensionalVariable of those | ["x"] unparsable ]
 slot        = 0: assemble at the stored iterate; 1: assemble with an explicit `state=` vector.
+update_eq   = {"name", "grids": None | [keys], "per": None | [c,f,n], "expr"}  (None = the defaults of update_equation)
+delta       = (set_eq / update_eq, optional) the operator has `declared rows + delta` rows: `Consistent` is violated on purpose.
 
 Two identical worlds are built per case: world A receives the calls, world B (same history of
 set/remove) is only ever asked for the FULL system, so that `assembled_equation_indices` of A is never
@@ -45,7 +47,16 @@ THEOREMS = [
     "PorepyVerif.C06.restriction_order_irrelevant",
     "PorepyVerif.C06.request_permutation_irrelevant",
     "PorepyVerif.C06.grid_order_irrelevant",
+    "PorepyVerif.C06.consistent_implies_covers",
+    "PorepyVerif.C06.index_error_iff",
+    "PorepyVerif.C06.index_error_residual",
+    "PorepyVerif.C06.remove_equation_spec",
+    "PorepyVerif.C06.update_equation_spec",
+    "PorepyVerif.C06.update_equation_failure",
+    "PorepyVerif.C06.varsOk_of_c05",
+    "PorepyVerif.C06.columns_all_reachable",
 ]
+LEAN_DIRS = ["C05"]   # Model.lean imports PorepyVerif.C05.Model, Props.lean uses C05.inv_reachable
 LEAN_MODULES = ["PorepyVerif.C06.Props"]
 AUDIT = "PorepyVerif/C06/Audit.lean"
 DRIVER = "PorepyVerif/C06/Driver.lean"
@@ -55,35 +66,51 @@ RULE = ("md-grids with 2-4 subdomains (dim 0-3, 1-3 cells) and 0-3 mortar grids 
         "2-5 equations (cells/faces/nodes multiplicities 0-2, zero-row blocks and an equation without grids are frequent, "
         "grids passed in random order) whose operators are sums of sparse-matrix x variable, products of two such terms and "
         "constants with dyadic data; histories of 6-16 (thorough: up to 30) calls: set_equation, remove_equation (then "
-        "re-set, which moves the equation to the end), and assemble with every request form: None, lists of names / "
+        "re-set, which moves the equation to the end), update_equation (~7 %: default or new grids / multiplicities, "
+        "foreign or repeated grids = removal without re-setting, unknown names), ~6 % of the operators with 1-2 rows fewer or more "
+        "than declared (IndexError path), and assemble with every request form: None, lists of names / "
         "Operators / nested dicts in random order with repetitions, restriction dicts with grid subsets in random order "
-        "with repeated and empty grid lists, str and Operator keys naming the same equation; variables None, [], names, "
+        "with repeated and empty grid lists, str and Operator keys naming the same equation, and a dedicated stratum (40 % of the "
+        "dict requests on systems with >= 2 equations) of multi-key restriction dicts whose key order differs from the order of "
+        "setting; variables None, [], names, "
         "Variables, md-variables, repeated, unknown names; evaluate_jacobian False/True; stored state or explicit state "
         "vector. ~12 % malformed: unknown names, grids outside the equation's domain, foreign grids, unparsable items, "
         "foreign variables, duplicate names / repeated / foreign grids in set_equation. "
-        "Compared: the image composition after every set_equation, A, b, the column count and "
-        "assembled_equation_indices after every assemble, error kinds. "
+        "Compared: the image composition and the list of equation names after every set/update/remove, A, b, the column count and "
+        "assembled_equation_indices after every assemble (also after a failing one), error kinds. "
         "non-trivial = at least one successful Jacobian assembly restricted to a proper grid subset, one with a proper "
         "variable subset and one residual-only assembly; distinct = distinct histories")
 TRUSTED = [
     "modelled, not verified: the AD evaluation of an operator (C01/C02) - the evaluated rows of every equation are DATA of the "
     "model (the full system assembled by the real code is sent to the driver, which must predict every restricted system); "
     "that `evaluate(derivative=False)` returns the `.val` of the derivative evaluation; that an operator has as many rows "
-    "as `equations_per_grid_entity` declares (hypothesis `Consistent`; the code does not check it either)",
+    "as `equations_per_grid_entity` declares (the code does not check it; the slice theorems need only `Covers` = at least the "
+    "declared rows, and `index_error_iff` says what happens otherwise; the harness generates both kinds and tells the driver the "
+    "actual operator lengths)",
     "modelled, not verified: python dict order/update = association lists; numpy fancy indexing, arange, concatenate, "
     "scipy csr row slicing, vstack and the product with the transposed projection are transcribed as list functions",
     "the md-grid listing order (mdg.subdomains() then mdg.interfaces(), property C24) and the entity counts are parameters "
     "of the model, read from the real md-grid by the harness",
+    "the variable table: `Sys.VarsOk` is derived from C05's proved invariant (`varsOk_of_c05`, `columns_all_reachable`); that the "
+    "block ranges of this model (`dofRange` over `dofOrder`) coincide with C05's `dofsOfIds` is not proved (the two models transcribe "
+    "`_cluster_dofs_gridwise` independently), it is covered by the correspondence check on the columns of every Jacobian",
+    "assembled_equation_indices after assemble_schur_complement_system (overwritten by the last secondary equation) is judged outside "
+    "this property: the statement is about `assemble`, and every inner `assemble(equations=[name])` call of the Schur method reports its "
+    "indices exactly as proved here; see fixes/C07-schur-assembled-equation-indices.diff",
     "a variable passed twice (e.g. by name and as Variable) duplicates its columns: documented in `_parse_variable_type` "
     "(\"not uniquified\"); the model and the oracle follow the code (columns = sorted dofs WITH multiplicity), the subset "
     "statement is proved for duplicate-free requests",
 ]
-EXPLANATION = ("FULL for the index logic: the model transcribes set_equation's image bookkeeping, _parse_single_equation / "
+EXPLANATION = ("FULL for the index logic: the model transcribes set_equation's image bookkeeping, remove_equation, update_equation "
+               "(remove + set: the equation moves to the END; a failing re-set leaves it removed), _parse_single_equation / "
                "_parse_equations (dict/list/None forms, overriding, re-ordering by set order), both branches of assemble with "
-               "the ind_start bookkeeping and the column projection; theorems hold for every system reachable by set/remove, "
-               "every request and every variable list. The evaluated rows are data (AD evaluation is C01/C02).")
+               "the ind_start bookkeeping, the partial index dictionary on IndexError and the column projection; theorems hold "
+               "for every system reachable by set/remove/update/assemble, every request and every variable list: slice theorem "
+               "under `Covers`, exact characterisation of the IndexError path, removal = un-requesting, variable table from C05's "
+               "invariant. The evaluated rows are data (AD evaluation is C01/C02).")
 ASSUMPTIONS = [
-    "the evaluated operator of every equation has the number of rows declared through equations_per_grid_entity (Consistent)",
+    "slice theorems: the evaluated operator of every equation has at least the number of rows declared through "
+    "equations_per_grid_entity (Covers); without it index_error_iff applies",
     "row values are copied, never recomputed: restricted and full assembly evaluate the same operator at the same state, "
     "so equality is exact (no tolerance is used anywhere in this check)",
 ]
@@ -169,6 +196,7 @@ class World:
         self.es.set_variable_values(_state(n, 0), time_step_index=0)
         self.foreign_vars = {}
         self.dummies = {}
+        self.eqinfo = {}   # name k -> {"grids", "per", "rows"} of the equations currently set (harness bookkeeping)
 
     # md order of the grid keys
     def md_order(self):
@@ -278,11 +306,48 @@ class World:
     def idx(self):
         return [[int(name[1:]), [int(i) for i in ix]] for name, ix in self.es.assembled_equation_indices.items()]
 
+    @staticmethod
+    def per_dict(per):
+        return {k: m for k, m in zip(("cells", "faces", "nodes"), per) if m > 0 or k == "cells"}
+
+    def sync(self, name=None, info=None):
+        """keep the bookkeeping in line with what the real system holds after a call"""
+        live = {int(n[1:]) for n in self.es._equations}
+        self.eqinfo = {k: v for k, v in self.eqinfo.items() if k in live}
+        if name is not None and name in live and info is not None:
+            self.eqinfo.pop(name, None)
+            self.eqinfo[name] = info
+
+    def names(self):
+        return [int(n[1:]) for n in self.es._equations]
+
     def set_eq(self, op):
-        nrows = self.declared_rows(op["grids"], op["per"])
+        nrows = max(0, self.declared_rows(op["grids"], op["per"]) + op.get("delta", 0))
         e = self.expr(op["expr"], nrows, f"e{op['name']}")
-        per = {k: m for k, m in zip(("cells", "faces", "nodes"), op["per"]) if m > 0 or k == "cells"}
-        self.es.set_equation(e, [self.grid(k) for k in op["grids"]], per)
+        ok = False
+        try:
+            self.es.set_equation(e, [self.grid(k) for k in op["grids"]], self.per_dict(op["per"]))
+            ok = True
+        finally:
+            self.sync(op["name"], {"grids": list(op["grids"]), "per": list(op["per"]), "rows": nrows} if ok else None)
+
+    def update_eq(self, op):
+        old = self.eqinfo.get(op["name"])
+        grids = op["grids"] if op["grids"] is not None else (old["grids"] if old else [])
+        per = op["per"] if op["per"] is not None else (old["per"] if old else [0, 0, 0])
+        nrows = max(0, self.declared_rows(grids, per) + op.get("delta", 0))
+        e = self.expr(op["expr"], nrows, "fresh")   # update_equation renames it
+        ok = False
+        try:
+            self.es.update_equation(f"e{op['name']}", e,
+                                    grids=None if op["grids"] is None else [self.grid(k) for k in op["grids"]],
+                                    equations_per_grid_entity=None if op["per"] is None else self.per_dict(op["per"]))
+            ok = True
+        finally:
+            self.sync(op["name"], {"grids": list(grids), "per": list(per), "rows": nrows} if ok else None)
+
+    def lens(self):
+        return [[k, self.eqinfo[k]["rows"]] for k in self.names()]
 
     def assemble(self, op):
         kw = {}
@@ -317,18 +382,20 @@ def _trace(case):
     fulls = {}
     for op in case["ops"]:
         rec = {"op": op}
-        if op["op"] == "set_eq":
+        if op["op"] in ("set_eq", "update_eq"):
+            call = (lambda w: w.set_eq(op)) if op["op"] == "set_eq" else (lambda w: w.update_eq(op))
             try:
-                A.set_eq(op)
+                call(A)
                 rec["ok"] = True
                 img = A.es._equation_image_space_composition[f"e{op['name']}"]
                 rec["image"] = [[A.key_of[id(g)], [int(i) for i in ix]] for g, ix in img.items()]
             except EXC as e:
                 rec["err"] = type(e).__name__
             try:
-                B.set_eq(op)
+                call(B)
             except EXC:
                 pass
+            rec["eqs"] = A.names()
             fulls = {}
         elif op["op"] == "remove_eq":
             try:
@@ -340,12 +407,16 @@ def _trace(case):
                 B.es.remove_equation(f"e{op['name']}")
             except EXC:
                 pass
+            A.sync()
+            B.sync()
+            rec["eqs"] = A.names()
             fulls = {}
         else:
             if op["slot"] not in fulls:
                 fulls[op["slot"]] = B.full(op["slot"])
                 rec["new_full"] = True
             rec["full"] = fulls[op["slot"]]
+            rec["lens"] = B.lens()
             rec["idx_before"] = A.idx()
             try:
                 r = A.assemble(op)
@@ -376,11 +447,13 @@ def impl_run(case):
             o = {"err": rec["err"]}
             if op["op"] == "assemble":
                 o["idx"] = rec["idx"]
+            else:
+                o["eqs"] = rec["eqs"]
             out.append(o)
-        elif op["op"] == "set_eq":
-            out.append({"image": rec["image"]})
+        elif op["op"] in ("set_eq", "update_eq"):
+            out.append({"image": rec["image"], "eqs": rec["eqs"]})
         elif op["op"] == "remove_eq":
-            out.append("ok")
+            out.append({"eqs": rec["eqs"]})
         elif op["jac"]:
             M = _dense(rec["A"])
             if M.ndim != 2:
@@ -410,6 +483,8 @@ def model_ops(case):
         op = rec["op"]
         if op["op"] == "set_eq":
             ops.append({"op": "set_eq", "name": op["name"], "grids": op["grids"], "per": op["per"]})
+        elif op["op"] == "update_eq":
+            ops.append({"op": "update_eq", "name": op["name"], "grids": op["grids"], "per": op["per"]})
         elif op["op"] == "remove_eq":
             ops.append({"op": "remove_eq", "name": op["name"]})
         else:
@@ -422,7 +497,8 @@ def model_ops(case):
                     sl = slice(A.indptr[i], A.indptr[i + 1])
                     cols.append([int(c) for c in A.indices[sl]])
                     vals.append([frac(x) for x in A.data[sl]])
-                ops.append({"op": "full", "slot": op["slot"], "b": [frac(x) for x in b], "cols": cols, "vals": vals})
+                ops.append({"op": "full", "slot": op["slot"], "b": [frac(x) for x in b], "cols": cols, "vals": vals,
+                            "lens": rec["lens"]})
             ops.append({"op": "assemble", "slot": op["slot"], "jac": op["jac"], "eqs": op["eqs"], "vars": op["vars"]})
     return ops
 
@@ -456,7 +532,9 @@ def _form(op):
 
 
 def oracle(case):
-    """The slice statement on the real outputs, with an independent computation of which rows / columns are meant."""
+    """The slice statement on the real outputs, with an independent computation of which rows / columns are meant
+    (equations in the order of setting, an updated equation LAST, a removed one gone; offsets from the actual operator
+    lengths; IndexError exactly when a restricted request reaches beyond a too short operator)."""
     tr = _trace(case)
     pos = {k: i for i, k in enumerate(tr["order"])}          # md position of a grid key
     cnt = {c[0]: c for c in tr["counts"]}
@@ -471,31 +549,42 @@ def oracle(case):
         start[i] = p
         p += sizes[i]
     ndofs = p
-    eqs = []  # [name, [(grid, nrows) in md order]] in the order of setting
-    kinds = {}
-    for a in _atoms(case["vars"]):
-        kinds.setdefault(a["name"], set()).add(a["on"])
-    name_on_both = any(len(k) == 2 for k in kinds.values())
-    deferred = None  # a failure that is a recorded finding: reported only if nothing else fails
+
+    def entry(name, grids, per, delta):
+        blocks = [(k, cnt[k][2] * per[0] + cnt[k][3] * per[1] + cnt[k][4] * per[2]) for k in sorted(set(grids), key=lambda k: pos[k])]
+        return {"name": name, "blocks": blocks, "per": list(per), "actual": max(0, sum(n for _, n in blocks) + delta)}
+
+    eqs = []  # the equations currently set, in the order of setting
     for j, rec in enumerate(tr["recs"]):
         op = rec["op"]
-        if op["op"] == "set_eq":
-            if "ok" in rec:
-                per = op["per"]
-                blocks = [(k, cnt[k][2] * per[0] + cnt[k][3] * per[1] + cnt[k][4] * per[2]) for k in sorted(set(op["grids"]), key=lambda k: pos[k])]
-                eqs.append([op["name"], blocks])
-            continue
-        if op["op"] == "remove_eq":
-            if "ok" in rec:
-                eqs = [e for e in eqs if e[0] != op["name"]]
+        if op["op"] in ("set_eq", "update_eq", "remove_eq"):
+            old = next((e for e in eqs if e["name"] == op["name"]), None)
+            others = [e for e in eqs if e["name"] != op["name"]]
+            if op["op"] == "set_eq":
+                if "ok" in rec:
+                    eqs = eqs + [entry(op["name"], op["grids"], op["per"], op.get("delta", 0))]
+            elif op["op"] == "remove_eq":
+                if "ok" in rec:
+                    eqs = others
+            elif "ok" in rec:
+                if old is None:
+                    return {"what": f"op {j}: update_equation of an equation that is not set succeeded", "key": "update-unknown-succeeds"}
+                grids = op["grids"] if op["grids"] is not None else [k for k, _ in old["blocks"]]
+                per = op["per"] if op["per"] is not None else old["per"]
+                eqs = others + [entry(op["name"], grids, per, op.get("delta", 0))]   # remove + set: LAST
+            elif rec["err"] == "AssertionError":
+                eqs = others   # the re-setting failed after the removal (partial effect of update_equation)
+            if rec["eqs"] != [e["name"] for e in eqs]:
+                return {"what": f"op {j} ({op['op']}): equations are now {rec['eqs']}, expected the order {[e['name'] for e in eqs]}",
+                        "key": f"equation-order-after-{op['op']}"}
             continue
         form = _form(op)
-        known = {e[0]: e[1] for e in eqs}
+        known = {e["name"]: e for e in eqs}
         # ---- expected outcome of the request
         want_err = None
         sel = {}
         if op["eqs"] is None:
-            sel = {e[0]: None for e in eqs}
+            sel = {e["name"]: None for e in eqs}
         else:
             for key, gs in _flatten(op["eqs"]):
                 if key[0] == "x":
@@ -504,48 +593,43 @@ def oracle(case):
                 if key[1] not in known:
                     want_err = "ValueError"
                     break
-                if gs is not None and not set(gs) <= {k for k, _ in known[key[1]]}:
+                if gs is not None and not set(gs) <= {k for k, _ in known[key[1]]["blocks"]}:
                     want_err = "ValueError"
                     break
                 sel[key[1]] = None if gs is None else set(gs)
-        foreign_var = False
+        # ---- rows in the full system (offsets: actual operator lengths)
+        rows, per_eq, off = [], [], 0
+        if want_err is None:
+            for e in eqs:
+                name = e["name"]
+                if name in sel:
+                    if sel[name] is None:
+                        loc = list(range(e["actual"]))
+                    else:
+                        loc, q = [], 0
+                        for k, n in e["blocks"]:
+                            if k in sel[name]:
+                                loc += list(range(q, q + n))
+                            q += n
+                        if any(i >= e["actual"] for i in loc):
+                            want_err = "IndexError"   # the operator is shorter than declared and the request reaches beyond it
+                            break
+                    per_eq.append((name, len(loc)))
+                    rows += [off + i for i in loc]
+                off += e["actual"]
         if want_err is None and op["jac"] and op["vars"]:
             for v in op["vars"]:
-                if v[0] == "x":
-                    want_err = "ValueError"   # raised by _parse_variable_type before any dof is looked up
-                    foreign_var = False
-                    break
-                if (v[0] == "v" and v[1] >= len(tr["atoms"])) or (v[0] == "m" and any(i >= len(tr["atoms"]) for i in v[1])):
+                if v[0] == "x" or (v[0] == "v" and v[1] >= len(tr["atoms"])) or (v[0] == "m" and any(i >= len(tr["atoms"]) for i in v[1])):
                     want_err = "ValueError"
-                    foreign_var = True
         if want_err is not None:
-            if foreign_var and rec.get("err") == "AssertionError" and name_on_both:
-                # the ValueError message of dofs_of formats the EquationSystem, whose __str__ asserts that a variable
-                # name lives on one kind of grid only
-                deferred = deferred or {"what": f"op {j} ({form}): a Variable unknown to the system raises AssertionError (from EquationSystem.__str__ "
-                                                "inside the error message of dofs_of) instead of ValueError when a variable name exists on "
-                                                "subdomains and on interfaces", "key": "unknown-variable-AssertionError-from-str"}
-                continue
             if rec.get("err") != want_err:
                 return {"what": f"op {j} ({form}): expected {want_err}, got {rec.get('err', 'a result')}", "key": f"error-kind:{form}:{want_err}"}
             continue
         if "err" in rec:
             return {"what": f"op {j} ({form}): a valid request raised {rec['err']}", "key": f"valid-request-raises:{form}"}
-        # ---- rows in the full system
-        rows, per_eq, off = [], [], 0
-        for name, blocks in eqs:
-            loc, q = [], 0
-            for k, n in blocks:
-                if name in sel and (sel[name] is None or k in sel[name]):
-                    loc += list(range(q, q + n))
-                q += n
-            if name in sel:
-                per_eq.append((name, len(loc)))
-                rows += [off + i for i in loc]
-            off += q
         Af, bf = rec["full"]
         if Af.shape != (off, ndofs) or bf.shape != (off,):
-            return {"what": f"op {j}: full system has shape {Af.shape}, declared sizes give {(off, ndofs)}", "key": "full-shape"}
+            return {"what": f"op {j}: full system has shape {Af.shape}, the operators give {(off, ndofs)}", "key": "full-shape"}
         b = rec["b"]
         if b.shape != (len(rows),) or not np.array_equal(b, bf[rows]):
             return {"what": f"op {j} ({form}): residual {b.tolist()} is not the full residual at rows {rows}: {bf[rows].tolist()}",
@@ -576,7 +660,7 @@ def oracle(case):
             q += n
         if rec["idx"] != exp:
             return {"what": f"op {j} ({form}): assembled_equation_indices {rec['idx']} but the row blocks are {exp}", "key": f"indices-wrong:{form}"}
-    return deferred
+    return None
 
 
 # ----------------------------------------------------------------------------- generator
@@ -678,7 +762,10 @@ def _gen_set(rng, grids, atoms, name, bad):
         gl.insert(rng.randrange(len(gl) + 1), FOREIGN + rng.randrange(4))
     elif bad == "repeated-grid" and gl:
         gl.insert(rng.randrange(len(gl) + 1), rng.choice(gl))
-    return {"op": "set_eq", "name": name, "grids": gl, "per": _mult(rng), "expr": _gen_expr(rng, atoms)}
+    op = {"op": "set_eq", "name": name, "grids": gl, "per": _mult(rng), "expr": _gen_expr(rng, atoms)}
+    if bad is None and rng.random() < 0.1:
+        op["delta"] = rng.choice([-2, -1, -1, 1, 2])   # operator shorter / longer than declared (Consistent violated)
+    return op
 
 
 def _gen_key(rng, k):
@@ -727,6 +814,16 @@ def _gen_request(rng, live, grids, bad):
         return {"list": items}
     ents, seen = [], set()
     pick = rng.sample(names, rng.randint(0 if rng.random() < 0.1 else 1, len(names))) if names else []
+    order = list(live)   # the order of setting
+    if len(order) >= 2 and rng.random() < 0.4:
+        # stratum: a restriction dict of >= 2 equations whose key order differs from the order of setting
+        pick = rng.sample(order, rng.randint(2, len(order)))
+        pick.sort(key=order.index, reverse=True)
+        if len(pick) > 2 and rng.random() < 0.5:
+            a, b = rng.sample(range(len(pick)), 2)
+            pick[a], pick[b] = pick[b], pick[a]
+            if pick == sorted(pick, key=order.index):
+                pick.reverse()
     for k in pick:
         key = _gen_key(rng, k)
         ents.append([key, restriction(k)])
@@ -803,6 +900,23 @@ def gen_case(rng, tier):
         if ok:
             live[name] = list(op["grids"])
 
+    def do_update(bad):
+        known = sorted(live)
+        b = rng.choice(["foreign-grid", "repeated-grid", "unknown-default", "unknown-explicit"]) if bad or not known else None
+        k = rng.choice(known) if known and b not in ("unknown-default", "unknown-explicit") else nxt + 7
+        tmpl = _gen_set(rng, grids, atoms, k, b if b in ("foreign-grid", "repeated-grid") else None)
+        op = {"op": "update_eq", "name": k, "expr": tmpl["expr"],
+              "grids": tmpl["grids"] if b in ("foreign-grid", "repeated-grid", "unknown-explicit") or rng.random() < 0.5 else None,
+              "per": tmpl["per"] if b == "unknown-explicit" or rng.random() < 0.5 else None}
+        if "delta" in tmpl:
+            op["delta"] = tmpl["delta"]
+        ops.append(op)
+        if k in live:
+            new = op["grids"] if op["grids"] is not None else live[k]
+            del live[k]
+            if all(g < FOREIGN for g in new) and len(set(new)) == len(new):
+                live[k] = list(new)   # remove + set: the updated equation is now the LAST one
+
     for _ in range(rng.randint(2, 5)):
         do_set(nxt)
         nxt += 1
@@ -810,7 +924,9 @@ def gen_case(rng, tier):
     for _ in range(nops):
         t = rng.random()
         bad = rng.random() < 0.12
-        if t < 0.08 and live:
+        if 0.12 <= t < 0.19:
+            do_update(bad)
+        elif t < 0.08 and live:
             k = rng.choice(sorted(live))
             ops.append({"op": "remove_eq", "name": k})
             del live[k]
@@ -834,7 +950,16 @@ def gen_case(rng, tier):
             kind = rng.choice(["unknown-name", "bad-type", "bad-grid", "foreign-var", "bad-var"]) if bad else None
             req = _gen_request(rng, live, grids, kind if kind in ("unknown-name", "bad-type", "bad-grid") else None)
             vs = _gen_varlist(rng, atoms, kind if kind in ("foreign-var", "bad-var") else None) if jac or rng.random() < 0.3 else None
-            ops.append({"op": "assemble", "jac": jac, "slot": 1 if rng.random() < 0.25 else 0, "eqs": req, "vars": vs})
+            op = {"op": "assemble", "jac": jac, "slot": 1 if rng.random() < 0.25 else 0, "eqs": req, "vars": vs}
+            if req is not None and "dict" in req:
+                order = list(live)
+                seq = []
+                for key, _ in req["dict"]:
+                    if key[0] in "so" and key[1] in live and key[1] not in seq:
+                        seq.append(key[1])
+                if len(seq) >= 2 and seq != sorted(seq, key=order.index):
+                    op["tag"] = "perm-dict"
+            ops.append(op)
     return {"grids": grids, "vars": vars_, "ops": ops}
 
 
@@ -871,12 +996,13 @@ def shrink_candidates(case):
                 f = "list" if "list" in req else "dict"
                 for j in range(len(req[f])):
                     yield dict(case, ops=ops[:i] + [dict(op, eqs={f: req[f][:j] + req[f][j + 1:]})] + ops[i + 1:])
-        if op["op"] == "set_eq" and len(op["expr"]["terms"]) > 1:
+        if op["op"] in ("set_eq", "update_eq") and len(op["expr"]["terms"]) > 1:
             yield dict(case, ops=ops[:i] + [dict(op, expr={"terms": op["expr"]["terms"][:1]})] + ops[i + 1:])
 
 
 def stats(cases, impl_outs):
-    st = {"cases": len(cases), "set_eq": 0, "set_eq_err": 0, "remove_eq": 0, "assemble": 0, "assemble_err": 0, "forms": {},
+    st = {"cases": len(cases), "set_eq": 0, "set_eq_err": 0, "remove_eq": 0, "update_eq": 0, "update_eq_err": 0, "update_defaults": 0,
+          "operators_not_as_declared": 0, "perm_dict_requests": 0, "assemble": 0, "assemble_err": 0, "forms": {},
           "jac": 0, "res_only": 0, "explicit_state": 0, "vars_none": 0, "vars_empty": 0, "vars_subset": 0, "zero_row_results": 0,
           "err_kinds": {}, "subdomains": {}, "interfaces": {}}
     for c, out in zip(cases, impl_outs):
@@ -888,14 +1014,21 @@ def stats(cases, impl_outs):
             e = o.get("err") if isinstance(o, dict) else None
             if e:
                 st["err_kinds"][e] = st["err_kinds"].get(e, 0) + 1
+            if "delta" in op:
+                st["operators_not_as_declared"] += 1
             if op["op"] == "set_eq":
                 st["set_eq"] += 1
                 st["set_eq_err"] += 1 if e else 0
+            elif op["op"] == "update_eq":
+                st["update_eq"] += 1
+                st["update_eq_err"] += 1 if e else 0
+                st["update_defaults"] += 1 if op["grids"] is None or op["per"] is None else 0
             elif op["op"] == "remove_eq":
                 st["remove_eq"] += 1
             else:
                 st["assemble"] += 1
                 st["assemble_err"] += 1 if e else 0
+                st["perm_dict_requests"] += 1 if op.get("tag") == "perm-dict" else 0
                 f = _form(op)
                 st["forms"][f] = st["forms"].get(f, 0) + 1
                 st["jac" if op["jac"] else "res_only"] += 1
